@@ -686,8 +686,29 @@ def _oddeven(ids: t.List[int]) -> t.List[int]:
     return ids[1::2] + ids[0::2]
 
 
-def client_long_histories() -> t.Iterator[t.Tuple[str, t.List[Event]]]:
-    for n in (4, 9, 33):
+def client_long_histories(marathon: bool = False) -> t.Iterator[t.Tuple[str, t.List[Event]]]:
+    # twelve SASL rounds in one bind, then ten re-binds of two rounds each
+    h0: t.List[Event] = []
+    nid = 1
+    for rounds in [12] + [2] * 10:
+        for r in range(rounds):
+            h0.append(("call", "bind_sasl", -1))
+            h0.append(("recv", "BindResp-sasl" if r < rounds - 1 else "BindResp-ok", nid))
+            nid += 1
+        h0 += [("call", "ext", -1), ("recv", "ExtResp", nid)]
+        nid += 1
+    yield "client-sasl-rounds", h0
+    if marathon:
+        # one search stays open while 33 000 further operations are issued and completed (id roll-over points)
+        h1: t.List[Event] = [("call", "search", -1)]
+        for k in range(33000):
+            h1.append(("call", "ext", -1))
+            h1.append(("recv", "ExtResp", k + 2))
+            if k % 4096 == 0:
+                h1.append(("recv", "Entry", 1))
+        h1 += [("recv", "Entry", 1), ("recv", "Done", 1)]
+        yield "client-marathon-33000", h1
+    for n in (4, 9, 33, 140):
         for order_name, order in (("fifo", _fifo), ("lifo", _lifo), ("oddeven", _oddeven)):
             h: t.List[Event] = []
             nxt = 1
@@ -721,6 +742,7 @@ def client_long_histories() -> t.Iterator[t.Tuple[str, t.List[Event]]]:
 def server_long_histories() -> t.Iterator[t.Tuple[str, t.List[Event]]]:
     idsets = {
         "small": list(range(1, 34)),
+        "many": list(range(1, 160)),
         "boundaries": [127, 128, 129, 255, 256, 32767, 32768, 65535, 65536, 2**31 - 2, 2**31 - 1, 2**31, 2**32, 2**63, 2**64 + 1],
     }
     for name, ids in idsets.items():
@@ -744,13 +766,13 @@ def server_long_histories() -> t.Iterator[t.Tuple[str, t.List[Event]]]:
             yield f"server-{name}-{order_name}", h
 
 
-def long_runs(role: str, known: t.Set[t.Tuple[str, str]], prop: str) -> t.Tuple[int, int, t.Dict[t.Tuple[str, str], t.Dict[str, t.Any]]]:
+def long_runs(role: str, known: t.Set[t.Tuple[str, str]], prop: str, marathon: bool = False) -> t.Tuple[int, int, t.Dict[t.Tuple[str, str], t.Dict[str, t.Any]]]:
     """-> (histories, steps, violations of prop).  A step that must be fatal (stale response) is tried on a copy."""
     global ID_BASE
     ID_BASE = 0
     viols: t.Dict[t.Tuple[str, str], t.Dict[str, t.Any]] = {}
     nh = steps = 0
-    gen = client_long_histories() if role == "client" else server_long_histories()
+    gen = client_long_histories(marathon) if role == "client" else server_long_histories()
     for name, hist in gen:
         nh += 1
         s = new_session(role)
@@ -764,7 +786,7 @@ def long_runs(role: str, known: t.Set[t.Tuple[str, str]], prop: str) -> t.Tuple[
                 if p == prop and (p, k) not in known:
                     e = viols.get((p, k))
                     if e is None:
-                        viols[(p, k)] = {"what": f"[long run {name}, step {len(done)}] {w}", "history": list(done), "count": 1}
+                        viols[(p, k)] = {"what": f"[long run {name}, step {len(done)}] {w}", "history": list(done) if len(done) < 3000 else [["note", f"long run {name}: first {len(done) - 40} steps elided", -1]] + done[-40:], "count": 1}
                     else:
                         e["count"] += 1
             if rec.post == S.CLOSED and rec.pre != S.CLOSED:
